@@ -8,6 +8,7 @@ import io
 import itertools
 import os
 import shutil
+import sys
 import tempfile
 
 from vf import core, corpus, isogen
@@ -357,8 +358,70 @@ CLI_CASES = [
 CLI_CASES += [dict(c, tool='mideu') for c in CLI_CASES]
 
 
+CLI2_TOOLS = ['mci_ipm_to_csv', 'mideu_extract', 'mideu_convert', 'mci_ipm_to_csv_argv', 'paramconv']
+CLI2_BASES = ['plain', 'pds', 'icc', 'de43', 'min']
+
+
+def cli2_mutations(name, tier):
+    """a regular thinning (every k-th, k prime) of the message mutation set of a corpus message, in latin_1 and cp500"""
+    out = []
+    for enc in ('latin_1', 'cp500'):
+        data, struct, cfg, _ = corpus.encoded(name, enc, False)
+        muts = list(msg_mutations(data, struct, 'quick', enc))
+        k = 211 if tier == 'quick' else 53
+        out += [(enc, list(m)) for m in muts[::k]]
+    return out
+
+
+def check_cli2_case(case, acc):
+    """the commands that catch the library's data error, run on a three-record file whose middle record carries the
+    fault (blocked and unblocked, through cli_run and through the argument parser): they must complete or stop with
+    their diagnostic (return -1) - never a traceback, never a hang. Their diagnostic prints the error, the wrapped
+    exception and a hexdump of the record, so the fault's bytes flow through that code as well."""
+    from cardutil.cli import mci_ipm_to_csv, mideu, paramconv
+    enc, tool, blocked = case['enc'], case['tool'], case['blocked']
+    data, struct, cfg, cfgname = corpus.encoded(case['msg'], enc, False)
+    bad = faults.apply(data, tuple(case['mut']))
+    stream = vbs_ref.frame([data, bad, data])
+    content = blk_ref.block(stream) if blocked else stream
+    src = 'ebcdic' if enc == 'cp500' else 'ascii'
+    nb = [] if blocked else ['--no1014blocking']
+    d = tempfile.mkdtemp(prefix='vf_c07_')
+    argv0 = sys.argv
+    try:
+        path = os.path.join(d, 'in.ipm')
+        with open(path, 'wb') as f:
+            f.write(content)
+
+        def run():
+            with contextlib.redirect_stdout(io.StringIO()), contextlib.redirect_stderr(io.StringIO()):
+                if tool == 'mci_ipm_to_csv':
+                    return mci_ipm_to_csv.cli_run(in_filename=path, out_filename=os.path.join(d, 'out.csv'),
+                                                  in_encoding=enc, no1014blocking=not blocked)
+                if tool == 'mci_ipm_to_csv_argv':
+                    sys.argv = ['mci_ipm_to_csv', path, '--in-encoding', enc] + nb
+                    return mci_ipm_to_csv.cli_entry()
+                if tool == 'mideu_extract':
+                    return mideu.cli_entry(['extract', path, '-s', src] + nb)
+                if tool == 'mideu_convert':
+                    return mideu.cli_entry(['convert', path, '-s', src] + nb)
+                return paramconv.cli_entry([path, '-s', src] + nb)
+        status, val = faults.guarded(run, CPU_LIMIT)
+    finally:
+        sys.argv = argv0
+        shutil.rmtree(d, ignore_errors=True)
+    out = 'hang' if status == 'hang' else ('traceback:' + type(val).__name__ if status == 'exc' else
+                                           'diagnostic' if val == -1 else 'completed')
+    acc.case(('cli2', case['msg'], enc, repr(case['mut']), tool, blocked), nontrivial=True, outcome='cli:' + out)
+    if out == 'hang' or out.startswith('traceback'):
+        acc.viol('c07.cli.%s.%s' % (out.split(':')[0], tool), case, '%s %r' % (out, val), 'stops with a diagnostic '
+                 '(return -1) or completes', 'record 2 of 3: %s' % (case['mut'],))
+
+
 def replay_into(case, acc):
     k = case['kind']
+    if k == 'cli2':
+        return check_cli2_case(case, acc)
     if k == 'msg':
         check_msg_case(case, acc)
     elif k == 'cfgseq':
@@ -400,6 +463,13 @@ def tasks(tier, seed):
             for part in range(of):
                 ts.append({'t': 'file', 'file': fname, 'enc': enc, 'part': part, 'of': of, 'tier': tier})
     ts.append({'t': 'cli'})
+    cli2 = []
+    for name in CLI2_BASES:
+        for i, (enc, mut) in enumerate(cli2_mutations(name, tier)):
+            cli2.append({'kind': 'cli2', 'msg': name, 'enc': enc, 'mut': mut, 'tool': CLI2_TOOLS[i % len(CLI2_TOOLS)],
+                         'blocked': bool((i // len(CLI2_TOOLS)) % 2)})
+    for ch in core.spread(cli2, 16):
+        ts.append({'t': 'cases', 'cases': ch})
     seqs = []
     for name in names:
         for enc, hx in (('latin_1', False), ('cp500', True)):
